@@ -172,7 +172,7 @@ def connectPoll (w : World) (h s : Nat) : World × String :=
     | .pending => (w, "pending")
     | .acked =>
       (w.setObj h s (.stream (some { loc := loc, rem := rem, chan := chan, fc := fcW + 1 })
-                             (some { loc := loc, rem := rem, fc := fcW })),
+                             (some { loc := loc, rem := rem, fc := fcW, sid := chan })),
        s!"ok {loc.toTok} {rem.toTok}")
     | .dropped =>
       -- the future completes with an error and is dropped
@@ -248,7 +248,7 @@ def opTcpAccept (w : World) (h ls s : Nat) : World × String :=
           let cs := (w.host! ci).socks.getD i default
           -- inverted: we write on the client's read control, read on its write control
           (w.setObj h s (.stream (some { loc := my, rem := origin, chan := chan, fc := cs.fcW })
-                                 (some { loc := my, rem := origin, fc := cs.fcW + 1 })),
+                                 (some { loc := my, rem := origin, fc := cs.fcW + 1, sid := chan })),
            s!"ok {my.toTok} {origin.toTok}")
   | _ => (w, "err badslot")
 
